@@ -1,0 +1,67 @@
+//go:build verif
+
+// Contracts for package definition, checked by /verif/govc. Comments only.
+
+package definition
+
+// Finite-set fact used for map equality: two finite key sets of equal size, one contained in the
+// other, are equal (Mathlib: Finset.eq_of_subset_of_card_le). Trusted axiom of the map model (len(m) is
+// the cardinality of the key set).
+//@ lemma cardSubsetEq(a map[string]string, b map[string]string)
+//@   trusted finite sets of equal cardinality with A subset of B are equal
+//@   lpre [card] len(a) == len(b) && forall k string :: (k in a) ==> (k in b)
+//@   lpost [eq] forall k string :: (k in b) ==> (k in a)
+//@ lemma cardSubsetEqTasks(a map[string]TaskDef, b map[string]TaskDef)
+//@   trusted finite sets of equal cardinality with A subset of B are equal
+//@   lpre [card] len(a) == len(b) && forall k string :: (k in a) ==> (k in b)
+//@   lpost [eq] forall k string :: (k in b) ==> (k in a)
+//@ lemma cardSubsetEqPipelines(a PipelinesMap, b PipelinesMap)
+//@   trusted finite sets of equal cardinality with A subset of B are equal
+//@   lpre [card] len(a) == len(b) && forall k string :: (k in a) ==> (k in b)
+//@   lpost [eq] forall k string :: (k in b) ==> (k in a)
+
+//@ func strSliceEquals
+//@   ensures [eq] res <==> extEq(s1, s2)
+//@   modifies nothing
+//@   loop 1 invariant [prefix] 0 <= $i + 1 && $i + 1 <= len(s1) && len(s1) == len(s2) && forall k :: 0 <= k && k <= $i ==> s1[k] == s2[k]
+
+//@ func (TaskDef).Equals
+//@   ensures [C17.eq] res <==> extEq(d, otherDef)
+//@   modifies nothing
+//@   loop 1 invariant [env] len(d.Env) == len(otherDef.Env) && extEq(d.Script, otherDef.Script) && extEq(d.DependsOn, otherDef.DependsOn) && d.AllowFailure == otherDef.AllowFailure && forall k string :: $seen[k] ==> (k in d.Env) && (k in otherDef.Env) && d.Env[k] == otherDef.Env[k]
+//@   at return: use cardSubsetEq(d.Env, otherDef.Env)
+
+//@ pure depsOK(d PipelineDef) bool = forall t string, i :: (t in d.Tasks) && 0 <= i && i < len(d.Tasks[t].DependsOn) ==> (d.Tasks[t].DependsOn[i] in d.Tasks)
+//@ func (PipelineDef).validate
+//@   ensures [C17.valid] res == nil <==> (d.Concurrency >= 1 && (d.QueueLimit == nil || *d.QueueLimit >= 0) && d.StartDelay >= 0 && !(d.StartDelay > 0 && d.QueueLimit != nil && *d.QueueLimit == 0) && depsOK(d))
+//@   modifies nothing
+//@   loop 1 invariant [seen] forall t string, i :: $seen[t] && 0 <= i && i < len(d.Tasks[t].DependsOn) ==> (d.Tasks[t].DependsOn[i] in d.Tasks)
+//@   loop 2 invariant [seen] forall t string, i :: $seen1[t] && t != taskName && 0 <= i && i < len(d.Tasks[t].DependsOn) ==> (d.Tasks[t].DependsOn[i] in d.Tasks)
+//@   loop 2 invariant [cur] (taskName in d.Tasks) && extEq(taskDef.DependsOn, d.Tasks[taskName].DependsOn) && taskDef.DependsOn == d.Tasks[taskName].DependsOn && 0 <= $i + 1 && $i + 1 <= len(taskDef.DependsOn) && forall i :: 0 <= i && i <= $i ==> (d.Tasks[taskName].DependsOn[i] in d.Tasks)
+
+//@ func (PipelineDef).Equals
+//@   ensures [C17.eq] res <==> extEq(d, otherDef)
+//@   modifies nothing
+//@   loop 1 invariant [env] pipelineScalarsEq(d, otherDef) && len(d.Env) == len(otherDef.Env) && forall k string :: $seen[k] ==> (k in d.Env) && (k in otherDef.Env) && d.Env[k] == otherDef.Env[k]
+//@   loop 2 invariant [tasks] pipelineScalarsEq(d, otherDef) && extEq(d.Env, otherDef.Env) && len(d.Tasks) == len(otherDef.Tasks) && forall k string :: $seen[k] ==> (k in d.Tasks) && (k in otherDef.Tasks) && extEq(d.Tasks[k], otherDef.Tasks[k])
+//@   at loop 2: use cardSubsetEq(d.Env, otherDef.Env)
+//@   at return: use cardSubsetEq(d.Env, otherDef.Env)
+//@   at return: use cardSubsetEqTasks(d.Tasks, otherDef.Tasks)
+//@ pure pipelineScalarsEq(d PipelineDef, o PipelineDef) bool = d.Concurrency == o.Concurrency && extEq(d.QueueLimit, o.QueueLimit) && d.QueueStrategy == o.QueueStrategy && d.StartDelay == o.StartDelay && d.ContinueRunningTasksAfterFailure == o.ContinueRunningTasksAfterFailure && d.RetentionPeriod == o.RetentionPeriod && d.RetentionCount == o.RetentionCount
+
+//@ func (PipelinesDef).Equals
+//@   ensures [C17.eq] res <==> extEq(d, otherDefs)
+//@   modifies nothing
+//@   loop 1 invariant [pipelines] len(d.Pipelines) == len(otherDefs.Pipelines) && forall k string :: $seen[k] ==> (k in d.Pipelines) && (k in otherDefs.Pipelines) && extEq(d.Pipelines[k], otherDefs.Pipelines[k])
+//@   at return: use cardSubsetEqPipelines(d.Pipelines, otherDefs.Pipelines)
+
+//@ func (*PipelinesDef).setDefaults
+//@   requires [nonnil] d != nil
+//@   ensures [C17.defaults] forall p string :: (p in d.Pipelines) <==> old(p in d.Pipelines)
+//@   ensures [C17.concurrency] forall p string :: (p in d.Pipelines) ==> d.Pipelines[p].Concurrency == ite(old(d.Pipelines[p].Concurrency) == 0, 1, old(d.Pipelines[p].Concurrency)) && d.Pipelines[p].StartDelay == old(d.Pipelines[p].StartDelay) && d.Pipelines[p].QueueLimit == old(d.Pipelines[p].QueueLimit) && d.Pipelines[p].QueueStrategy == old(d.Pipelines[p].QueueStrategy) && d.Pipelines[p].Tasks == old(d.Pipelines[p].Tasks) && d.Pipelines[p].Env == old(d.Pipelines[p].Env)
+//@   loop 1 invariant [sofar] d.Pipelines == old(d.Pipelines) && (forall p string :: (p in d.Pipelines) <==> old(p in d.Pipelines)) && (forall p string :: (p in d.Pipelines) ==> d.Pipelines[p].Concurrency == ite($seen[p] && old(d.Pipelines[p].Concurrency) == 0, 1, old(d.Pipelines[p].Concurrency)) && d.Pipelines[p].StartDelay == old(d.Pipelines[p].StartDelay) && d.Pipelines[p].QueueLimit == old(d.Pipelines[p].QueueLimit) && d.Pipelines[p].QueueStrategy == old(d.Pipelines[p].QueueStrategy) && d.Pipelines[p].Tasks == old(d.Pipelines[p].Tasks) && d.Pipelines[p].Env == old(d.Pipelines[p].Env))
+
+//@ func (*QueueStrategy).UnmarshalYAML
+//@   trusted the unmarshal callback is an injected function writing the local strategy name; only the mapping of names to constants is of interest and is read off the switch
+
+//@ property C17: definition.*/ensures[C17.*] definition.*/loop* definition.strSliceEquals/*
